@@ -485,6 +485,15 @@ def int_of_seq(E, v, base):
     if first is not None and z3.is_expr(first) and z3.is_bv(first) or any(z3.is_expr(x) and z3.is_bv(x) for x in (v.items or [])):
         from . import models_bv
         return models_bv.int_of_hex(E, v, base)
+    if base == 2 and v.clen() is not None and v.clen() > 0:
+        els = [v.at(z3.IntVal(k)) for k in range(v.clen())]
+        if not E.branch(z3.And(*[z3.Or(I(e) == 48, I(e) == 49) for e in els])):
+            _raise(E, ValueError, 'invalid literal for int() with base 2')
+        t = None
+        for e in els:
+            bit = z3.If(I(e) == 49, z3.BitVecVal(1, 1), z3.BitVecVal(0, 1))
+            t = bit if t is None else z3.Concat(t, bit)
+        return VBV(z3.simplify(t))
     if base != 10:
         raise Unsupported('int(symbolic, base %s) outside the bit-vector domain' % base)
     c = v.clen()
@@ -650,7 +659,58 @@ def joined_str(E, e, fr):
 
 @method('str', 'format')
 def m_str_format(E, a, kw):
-    raise Unsupported('str.format')
+    """str.format for concrete templates with {}, {name}, {0} fields and (possibly nested) format specs"""
+    import string
+    tmpl = conc_str(a[0])
+    if tmpl is None:
+        raise Unsupported('str.format on a symbolic template')
+    args = a[1:]
+    auto = [0]
+
+    def lookup(name):
+        if name == '':
+            v = args[auto[0]]
+            auto[0] += 1
+            return v
+        if name.isdigit():
+            return args[int(name)]
+        if '.' in name or '[' in name:
+            raise Unsupported('attribute/index lookup in format field')
+        if name not in kw:
+            _raise(E, KeyError, name)
+        return kw[name]
+    out = seq_lit('str', '')
+    for lit, field, spec, conv in string.Formatter().parse(tmpl):
+        if lit:
+            out = seq_concat(out, seq_lit('str', lit))
+        if field is None:
+            continue
+        if conv not in (None, 's'):
+            raise Unsupported('format conversion')
+        v = lookup(field)
+        if spec and '{' in spec:
+            sp = ''
+            for l2, f2, s2, c2 in string.Formatter().parse(spec):
+                sp += l2 or ''
+                if f2 is not None:
+                    inner = lookup(f2)
+                    ci = conc_int(E.as_int(inner)) if isinstance(inner, (VInt, VBV)) else None
+                    if ci is None:
+                        cs = conc_str(inner) if isinstance(inner, VSeq) else None
+                        if cs is None:
+                            raise Unsupported('symbolic nested format spec')
+                        sp += cs
+                    else:
+                        sp += str(ci)
+            spec = sp
+        if spec:
+            piece = format_value(E, v, seq_lit('str', spec))
+        elif isinstance(v, VSeq) and v.kind == 'str':
+            piece = v
+        else:
+            piece = E.call_value(VFunc('model', MODELS['str'], name='str'), [v], {})
+        out = seq_concat(out, piece)
+    return out
 
 
 # ---- comprehensions ---------------------------------------------------------------------------
